@@ -188,7 +188,7 @@ def verdictWriter (mw mk ka : Nat) (old : List (Nat × Nat)) (startLen : Nat) (s
   let budget := max mk mw + maxEv
   if total > budget ∨ (field obs "peak").toNat! > budget then fails := fails ++ ["over-keep-size"]
   -- files of earlier runs: deleted oldest first, and before any line of this run
-  let oldByAge := (old.zipIdx.toArray.qsort (fun a b => a.1.2 > b.1.2)).toList.map (·.2)
+  let oldByAge := (old.zipIdx.toArray.qsort (fun a b => a.1.2 > b.1.2 || (a.1.2 == b.1.2 && a.2 < b.2))).toList.map (·.2)
   if xs != oldByAge.drop (oldByAge.length - xs.length) then fails := fails ++ ["not-oldest-first"]
   if !xs.isEmpty ∧ ids.length < n then fails := fails ++ ["not-oldest-first"]
   if ka > 0 ∧ n > 0 ∧ xs.any (fun k => ((old[k]?).map (·.2)).getD 0 > ka + 600) then fails := fails ++ ["older-than-keep-age"]
@@ -198,7 +198,8 @@ def handleWriter (args : List String) (obs : String) : String :=
   match args with
   | [mw, mk, ka, ex, pads] =>
     match mw.toNat?, mk.toNat?, ka.toNat?,
-      (splitNonEmpty ex ",").mapM (fun x => match x.splitOn ":" with
+      -- (`R`: the writer was given a relative prefix and the working directory changed afterwards: no effect)
+      ((splitNonEmpty ex ",").filter (· != "R")).mapM (fun x => match x.splitOn ":" with
         | [l, a] => do pure (← l.toNat?, ← a.toNat?)
         | _ => none) with
     | some mw, some mk, some ka, some old =>
@@ -208,7 +209,8 @@ def handleWriter (args : List String) (obs : String) : String :=
       let segs := (segLens.foldl (fun (p : List (List Nat) × List Nat) n => (p.1 ++ [p.2.take n], p.2.drop n)) ([], sizes)).1
       let cfg : Cfg := { maxWrite := mw, maxKeep := mk, keepAge := if ka == 0 then none else some (ka * 1000), maxWriteAge := 24 * 3600 * 1000 }
       let oldFiles : List PFile := (old.zipIdx.map fun ((len, age), i) => (⟨i, t0 - age * 1000, len⟩ : PFile))
-      let oldSorted := (oldFiles.toArray.qsort (fun a b => a.mtime < b.mtime)).toList
+      -- (files with the same time: the lower number goes first; the harness shows the survivors of such a group under its highest numbers)
+      let oldSorted := (oldFiles.toArray.qsort (fun a b => a.mtime < b.mtime || (a.mtime == b.mtime && a.id < b.id))).toList
       let model := match runWriter cfg startLen oldSorted segs with
         | none => "PANIC"
         | some st => s!"start={startLen} sizes={field obs "sizes"} files={renderFiles old.length st} done=1 peak={field obs "peak"} unrelated=1"
